@@ -197,6 +197,14 @@ def optimiser_semantic(chk, d, entries, nin):
         for c, c0 in zip(cases, cases0):
             changed = c.ast_sexp != c0.ast_sexp
             chk.programs += 1
+            if not changed:
+                chk.case("optimiser_unchanged", None)
+                continue  # identical ASTs: nothing to compare
+            # exact rational execution blows up on large kernels (thousands of digits after a few hundred multiplications of
+            # 53-bit table values): those kernels are covered by the structural optimiser correspondence + optimizeCert only
+            if len(c0.ast_sexp) > 400_000:
+                chk.notes.setdefault("exact_exec_skipped_large", []).append(c.name)
+                continue
             for k in range(nin):
                 inp = kernels.random_inputs(c, rng, A0="random")
                 st1, A1 = kernels.lean_exec(d, c, inp)
